@@ -16,6 +16,8 @@ STRENGTHENED = {
     "C16": "new oracle `roundtrip_missing_rows` (numeric tables, everyday delimiters incl. tab, empty/short markers, a row in which every cell is missing); everyday delimiters and the empty marker over-sampled elsewhere",
     "C17": "half of the postfixes come from a pool of names that are prefixes / suffixes / underscore-delimited tails of one another",
     "C18": "points on the coordinate axes (ridge axis and surface of the corner flow) are planted; gradient errors are scaled by the natural magnitude U/r so that an identically vanishing closed form is handled",
+    "C10c": "new oracle `stiffness_mutation_sequence`: one StiffnessTensors instance is reused for several averages with its attributes reassigned in between (the documented way to set custom stiffnesses), and the default instance is checked afterwards",
+    "C14b": "the uniform-texture limit is now compared with the independent correct M-index of the same texture (M <= M_ref + 0.02) instead of a loose multiple of it",
     "C20": "new differential part of `point_density`: raw estimates are rebuilt from the documented counting grid with pydrex's kernel functions, normalised, clipped and compared (1e-9)",
 }
 
@@ -28,7 +30,7 @@ def seeded_table():
         first = m.get("first_verdict")
         final = "caught" if any(v["caught"] for v in checks.values()) else "MISSED"
         allc = all(v["caught"] for v in checks.values()) if checks else False
-        rows.append(f"| {name} | {m.get('breaks_property','')} | {m.get('summary','').replace('|','/').replace(chr(10),' ')[:150]} | {m.get('needs','').replace('|','/').replace(chr(10),' ')[:120]} | {first or ('caught' if allc else 'see meta.json')} | {final} | {STRENGTHENED.get(name, '-') if first == 'missed' else '-'} |")
+        rows.append(f"| {name} | {m.get('breaks_property','')} | {m.get('summary','').replace('|','/').replace(chr(10),' ')[:150]} | {m.get('needs','').replace('|','/').replace(chr(10),' ')[:120]} | {first or ('caught' if allc else 'see meta.json')} | {final} | {STRENGTHENED.get(name, '-') if (first or '').startswith('missed') or name == 'C14b' else '-'} |")
     return "\n".join(rows)
 
 def main():
